@@ -15,6 +15,14 @@ RULE = ('compute_features(sig, centre) and compute_features(-sig, other centre) 
         'voltages / symmetries within 1e-9; a table on one side and an exception on the other is a failure. The premises '
         'of the mirror theorem (reference envelope and detector mask of -x equal those of x) are evaluated per case and '
         'counted (mirror_premise_checked / _failed); a premise-failed case is kept out of the model comparison. '
+        'Independently of everything else ~30 % of the cases make the judged analysis on an ndarray object that was '
+        'first filled with another signal of the same length and analysed once with the same option objects, then '
+        'refilled in place (`prebuffer`); ~20 % pass every array of the case read-only (WRITEABLE flag cleared); ~20 % '
+        "make 1-2 rejected calls (mis-spelt key put into the caller's own find_extrema_kwargs / threshold_kwargs and "
+        "taken out again, invalid f_range, centre or burst method) on the case's own array and option objects directly "
+        'before the judged analysis; a read-only case passes the negated array read-only as well (an in-place negation '
+        'unlocks the array for the edit only); all oracles and the model comparison apply to the judged analysis '
+        'unchanged (counters in the evidence). '
         'non-trivial = >= 3 rows, a label of each value and a mirrored table')
 ASSUMPTIONS = ['signals finite',
                'premise of the mirror theorem: envelope and detector mask of the negated signal equal those of the signal '
@@ -46,7 +54,7 @@ def coq_case(c, o):
 
 
 def oracle(c, o):
-    return pipeline.oracle_mirror(c, o)
+    return pipeline.with_context(c, pipeline.oracle_mirror(c, o))
 
 
 def nontrivial(c, o):
